@@ -143,7 +143,7 @@ func analyse(ev []verifsim.Event) *history {
 				endGen(e.Node, ifn, e.Seq, e.T)
 			}
 		case "act.link":
-			if e.S == "down" && e.Err == "" {
+			if isDown(e.S) && e.Err == "" {
 				if g := cur[fmt.Sprintf("%d|%s", e.Node, e.If)]; g != nil && g.doomT == 0 {
 					g.doomT = e.T
 				}
@@ -341,4 +341,15 @@ func (h *history) unreadDeliveries(ifn string, stopT int64, busyProbe func(), re
 			report(g, delivered, cutT)
 		}
 	}
+}
+
+// isDown: does a link action's batch of operational states ("down", "down+up",
+// "up+down+dormant") contain a link-down?
+func isDown(oper string) bool {
+	for _, op := range strings.Split(oper, "+") {
+		if op == "down" {
+			return true
+		}
+	}
+	return false
 }
